@@ -302,7 +302,7 @@ pub fn run_c20(cfg: &RunCfg, trace: bool) -> RunOut {
         return out;
     }
     let nodes: u64 = cfg.extra.get("fault_nodes").and_then(|s| s.parse().ok()).unwrap_or(u64::MAX);
-    let kinds = ["Other", "PermissionDenied", "StorageFull", "TimedOut"];
+    let kinds = ["Other", "PermissionDenied", "StorageFull", "TimedOut", "NotFound"];
     let sticky_too = cfg.extra.get("sticky").map(|s| s == "1").unwrap_or(false);
     let mut points = 0u64;
     let mut fired_points = 0u64;
